@@ -208,9 +208,9 @@ def tlc_simulate(ck, name, model, num, depth, seed, maxround=2, rank="RankMix", 
     return r, hists
 
 
-def scripts_from(model, hists, prefix, cont=True):
+def scripts_from(model, hists, prefix, cont=True, sync=False):
     m = MODELS[model]
-    return [dict(name="%s%d" % (prefix, k), powers=m["powers"], byz=m["byz"], inputs=m["inputs"], lookahead=0, steps=h) for k, h in enumerate(hists)]
+    return [dict(name="%s%d" % (prefix, k), powers=m["powers"], byz=m["byz"], inputs=m["inputs"], lookahead=0, steps=h, sync=sync) for k, h in enumerate(hists)]
 
 
 def run_scripts(ck, binary, scripts, tag, cont=True, seed=1):
@@ -241,6 +241,18 @@ def quorum_design(ck, cfgs, mutants, timeout=1500, workers=None):
         ck.cov["configs"].append(dict(config="mutant:" + cfg, refuted_by=r.violated, counterexample_states=len(r.trace), distinct=r.distinct, wall_s=round(r.wall, 1)))
 
 
+def simple_design(ck, module, cfgs, mutants, timeout=900, workers=4, exhaustive=True, note=""):
+    for cfg in cfgs:
+        r = vlib.tlc(SPECDIR, module, cfg + ".cfg", workdir=os.path.join(ck.dir, "tlc-" + cfg), workers=workers, timeout=timeout)
+        ck.require_tlc_ok(cfg, r, "design check (%s)" % module)
+        ck.add_tlc("design:" + cfg, r, exhaustive=exhaustive, note=note)
+    for cfg in mutants:
+        r = vlib.tlc(SPECDIR, module, cfg + ".cfg", workdir=os.path.join(ck.dir, "tlc-" + cfg), workers=workers, timeout=timeout)
+        if r.error or not r.violated:
+            raise Inconclusive("mutant configuration %s was not refuted by TLC (invariant vacuous?): %s\n%s" % (cfg, r.error, r.out[-1500:]))
+        ck.cov["configs"].append(dict(config="mutant:" + cfg, refuted_by=r.violated, distinct=r.distinct, wall_s=round(r.wall, 1)))
+
+
 def permsg_design(ck, name, model, walks, depth=70, maxround=2, seed=None, rank="RankMix", timeout=900):
     """Design-level check of the implementation-shaped per-message model by TLC simulation (random walks, every state checked);
     returns the exported histories (schedules) for replay on the real participants."""
@@ -259,11 +271,51 @@ def permsg_design(ck, name, model, walks, depth=70, maxround=2, seed=None, rank=
     return out
 
 
-def replay_conformance(ck, binary, model, hists, prefixes, tag="rconf", conformance=True):
+def sync_cfg(model, maxround, prefix, k, invariants, overrides=(), rank="RankMix"):
+    m = MODELS[model]
+    lines = ["SPECIFICATION SSpec", "CONSTANTS", "  H = %s" % m.get("H", "{1, 2, 3}"), "  B = %s" % m.get("B", "{4}"), "  Power <- %s" % m.get("Power", "Power4"),
+             "  Chains <- %s" % m["Chains"], "  MaxRound = %d" % maxround, "  Rank <- %s" % rank, "  Lookahead = 0", "  Order <- %s" % m.get("Order", "Order4"),
+             "  Input <- %s" % m["Input"], "  Depth = 100000", "  Noop = FALSE", "  PrefixLen = %d" % prefix, "  K = %d" % k]
+    lines += ["  " + o for o in overrides]
+    lines += ["INVARIANT " + i for i in invariants]
+    lines.append("CHECK_DEADLOCK TRUE")
+    return "\n".join(lines) + "\n"
+
+
+def sync_design(ck, name, model, walks, prefix, seed, k=2, maxround=5, overrides=(), expect_refuted=False, timeout=900, export=True, rank="RankMix"):
+    """C06 at design level: MCGPBFTSync.tla (arbitrary prefix, stabilisation, quiescence-gated timeouts) by TLC simulation; stuck states are deadlocks,
+    the round bound is an invariant.  Returns the histories of walks that ended with everybody decided."""
+    invs = ["RoundBound", "SafetyStill"] + (["ExportSync"] if export else [])
+    cfg = sync_cfg(model, maxround, prefix, k, invs, overrides, rank)
+    workers = max(2, min(8, vlib.NCPU - 2))
+    r = vlib.tlc(SPECDIR, "MCGPBFTSync", "gen.cfg", workdir=os.path.join(ck.dir, "tlc-" + name), workers=workers, timeout=timeout,
+                 simulate="num=%d" % max(1, walks // workers), depth=260, seed=seed, extra_files={"gen.cfg": cfg.encode()}, deadlock=True)
+    m = re.search(r"The number of states generated: (\d+)", r.out)
+    if m:
+        r.generated = r.distinct = int(m.group(1))
+    if expect_refuted:
+        if r.error or not r.violated:
+            raise Inconclusive("liveness mutant %s was not refuted by TLC: %s\n%s" % (name, r.error, r.out[-1500:]))
+        ck.cov["configs"].append(dict(config="mutant:" + name, refuted_by=r.violated, states=r.generated, wall_s=round(r.wall, 1)))
+        return []
+    if r.error or r.violated:
+        raise Inconclusive("design model MCGPBFTSync (%s): %s %s -- design-level counterexample, to be reproduced on the code before it counts\n%s"
+                           % (name, r.violated, r.error, r.out[-3000:]))
+    ck.add_tlc("design:MCGPBFTSync-" + name, r, exhaustive=False,
+               note="%d random walks: asynchronous prefix <= %d steps with Byzantine messages, then stabilisation; no stuck state, round bound +%d, safety" % (walks, prefix, k))
+    seen, out = set(), []
+    for h in _re_hist.findall(r.out):
+        if h not in seen:
+            seen.add(h)
+            out.append(json.loads(_unescape(h)))
+    return out
+
+
+def replay_conformance(ck, binary, model, hists, prefixes, tag="rconf", conformance=True, sync=False):
     """R-conf: TLC-chosen schedules (behaviours of MCGPBFT.tla) executed on real participants, then judged like any other trace."""
     if not hists:
         raise Inconclusive("no schedule exported by TLC")
-    traces = run_scripts(ck, binary, scripts_from(model, hists, tag), tag, cont=True, seed=ck.seed)
+    traces = run_scripts(ck, binary, scripts_from(model, hists, tag, sync=sync), tag, cont=True, seed=ck.seed)
     st = stats(traces)
     resA = validate(ck, "GPBFTObs", "GPBFTObs.cfg", traces, tag + "-obs")
     judge_obs(ck, resA, prefixes, what="replay of a TLC-generated schedule")
